@@ -24,3 +24,233 @@ Definition raw_data_size (hd : ihdr) : Z :=
     let size := sat_add size (pass_size b ((w + 1) / 2) ((h + 1) / 4)) in
     let size := if 1 <? w then sat_add size (pass_size b (w / 2) ((h + 1) / 2)) else size in
     sat_add size (pass_size b w (h / 2)).
+
+From OxiVerif Require Import Base.Crc32 Model.Options.
+
+(* ------------------------------------------------------------------ chunks *)
+Record chunk := { c_name : cname; c_data : list Z }.
+
+Definition name_IHDR : cname := [73; 72; 68; 82].
+Definition name_PLTE : cname := [80; 76; 84; 69].
+Definition name_IDAT : cname := [73; 68; 65; 84].
+Definition name_IEND : cname := [73; 69; 78; 68].
+Definition name_tRNS : cname := [116; 82; 78; 83].
+Definition name_acTL : cname := [97; 99; 84; 76].
+Definition name_fcTL : cname := [102; 99; 84; 76].
+Definition name_fdAT : cname := [102; 100; 65; 84].
+Definition name_bKGD : cname := [98; 75; 71; 68].
+Definition name_hIST : cname := [104; 73; 83; 84].
+Definition name_sBIT : cname := [115; 66; 73; 84].
+Definition name_sRGB : cname := [115; 82; 71; 66].
+Definition name_iCCP : cname := [105; 67; 67; 80].
+Definition name_caBX : cname := [99; 97; 66; 88].
+
+Definition be32_of (l : list Z) : Z :=
+  match l with a :: b :: c :: d :: _ => be32 a b c d | _ => 0 end.
+Definition be16_of (l : list Z) : Z :=
+  match l with a :: b :: _ => be16 a b | _ => 0 end.
+
+(* fn parse_jumbf_box(data) -> Option<(box_name, data)> *)
+Definition parse_jumbf_box (data : list Z) : option (list Z * list Z) :=
+  if (length data <? 8)%nat then None else
+  let len := be32_of data in
+  if (len <? 8) || (lenZ data <? len) then None else
+  let rest := skipn 4 data in
+  let box_name := firstn 4 rest in
+  let d := skipn 4 rest in
+  (* data.get(..len - 8) *)
+  if lenZ d <? len - 8 then None else Some (box_name, firstn (Z.to_nat (len - 8)) d).
+
+(* RawChunk::is_c2pa *)
+Definition is_c2pa (name : cname) (data : list Z) : bool :=
+  if cname_eqb name name_caBX then
+    match parse_jumbf_box data with
+    | Some (bn, d) =>
+        if list_eqb Z.eqb bn [106; 117; 109; 98] (* jumb *) then
+          match parse_jumbf_box d with
+          | Some (bn2, d2) =>
+              if list_eqb Z.eqb bn2 [106; 117; 109; 100] (* jumd *)
+              then (4 <=? length d2)%nat && list_eqb Z.eqb (firstn 4 d2) [99; 50; 112; 97] (* c2pa *)
+              else false
+          | None => false
+          end
+        else false
+    | None => false
+    end
+  else false.
+
+(* pub fn parse_next_chunk over the remaining bytes: None = IEND reached *)
+Definition parse_next_chunk (rest : list Z) (fix_errors : bool) : res (option (chunk * list Z)) :=
+  if (length rest <? 4)%nat then Err ETruncated else
+  let length_ := be32_of rest in
+  if lenZ rest <? 12 + length_ then Err ETruncated else
+  let after_len := skipn 4 rest in
+  let name := firstn 4 after_len in
+  if cname_eqb name name_IEND then Ok None else
+  let n := Z.to_nat length_ in
+  let body := skipn 4 after_len in
+  let data := firstn n body in
+  let after := skipn n body in
+  let crc := be32_of after in
+  if negb fix_errors && negb (crc32 (firstn (4 + n) after_len) =? crc) then Err EOther
+  else Ok (Some ({| c_name := name; c_data := data |}, skipn 4 after)).
+
+Fixpoint triples (l : list Z) : list (Z * Z * Z) :=
+  match l with a :: b :: c :: t => (a, b, c) :: triples t | _ => [] end.
+
+(* palette.iter_mut().zip(trns_data): alpha replaced for the first min(len) entries *)
+Fixpoint zip_alpha (pl : list rgba8) (tl : list Z) : list rgba8 :=
+  match pl, tl with
+  | (r, g, b, _) :: pr, a :: tr => (r, g, b, a) :: zip_alpha pr tr
+  | _, _ => pl
+  end.
+
+(* fn palette_to_rgba *)
+Definition palette_to_rgba (plte trns : option (list Z)) : option (list rgba8) :=
+  match plte with
+  | None => None
+  | Some p =>
+      let pal := map (fun c : Z * Z * Z => let '(r, g, b) := c in (r, g, b, 255)) (triples p) in
+      match trns with
+      | Some t => Some (zip_alpha pal t)
+      | None => Some pal
+      end
+  end.
+
+Definition depth_valid (d : Z) : bool := (d =? 1) || (d =? 2) || (d =? 4) || (d =? 8) || (d =? 16).
+
+(* pub fn parse_ihdr_chunk(byte_data, palette_data, trns_data) *)
+Definition parse_ihdr_chunk (b : list Z) (plte trns : option (list Z)) : res ihdr :=
+  match nth_error b 12 with
+  | None => Err ETruncated
+  | Some il =>
+      let ctb := nth 9 b 0 in
+      let ct : res color_type :=
+        match ctb with
+        | 0 => Ok (Gray (match trns with Some t => if (2 <=? length t)%nat then Some (be16_of t) else None | None => None end))
+        | 2 => Ok (RGB (match trns with
+                        | Some t => if (6 <=? length t)%nat
+                                    then Some (be16_of t, be16_of (skipn 2 t), be16_of (skipn 4 t)) else None
+                        | None => None end))
+        | 3 => Ok (Indexed (match palette_to_rgba plte trns with Some p => p | None => [] end))
+        | 4 => Ok GrayAlpha
+        | 6 => Ok RGBA
+        | _ => Err EOther
+        end in
+      do c <- ct;
+      let d := nth 8 b 0 in
+      if negb (depth_valid d) then Err EOther else
+      if negb ((il =? 0) || (il =? 1)) then Err EOther else
+      let hd := {| width := be32_of b; height := be32_of (skipn 4 b); ctype := c; depth := d; interlaced := il =? 1 |} in
+      let valid := match c with
+                   | Gray _ => true
+                   | Indexed _ => d <=? 8
+                   | _ => 8 <=? d
+                   end in
+      if valid then Ok hd else Err EInvalidDepthForType
+  end.
+
+(* ------------------------------------------------------------------ ICC *)
+Fixpoint skip_name (data : list Z) : option (list Z) :=
+  match data with
+  | [] => None
+  | n :: rest => if n =? 0 then Some rest else skip_name rest
+  end.
+
+(* pub fn extract_icc(iccp) -> Option<Vec<u8>> *)
+Definition extract_icc (e : env) (iccp : chunk) : option (list Z) :=
+  match skip_name (c_data iccp) with
+  | None => None
+  | Some d =>
+      match d with
+      | [] => None
+      | method :: compressed =>
+          if negb (method =? 0) then None else
+          match z_inflate e compressed (lenZ compressed * 2 + 1000) with
+          | Ok icc => Some icc
+          | _ => None
+          end
+      end
+  end.
+
+(* pub fn make_iccp(icc, deflater, max_size) *)
+Definition make_iccp (e : env) (icc : list Z) (d : deflater) (max_size : option Z) : res chunk :=
+  do c <- deflate_capped e d icc max_size;
+  Ok {| c_name := name_iCCP; c_data := [105; 99; 99; 0; 0] ++ c |}.
+
+Definition SRGB_PROFILE_IDS : list (list Z) := SrcConsts.src_srgb_profile_ids.
+Definition SRGB_BAD_CRCS : list (Z * Z) := SrcConsts.src_srgb_bad_crcs.
+
+(* pub fn srgb_rendering_intent(icc_data) -> Option<u8> *)
+Definition srgb_rendering_intent (icc : list Z) : option Z :=
+  match nth_error icc 67 with
+  | None => None
+  | Some intent =>
+      if (length icc <? 100)%nat then None else
+      let id := firstn 16 (skipn 84 icc) in
+      if existsb (list_eqb Z.eqb id) SRGB_PROFILE_IDS then Some intent
+      else if forallb (fun b => b =? 0) id then
+        (if existsb (fun cl : Z * Z => (fst cl =? crc32 icc) && (snd cl =? lenZ icc)) SRGB_BAD_CRCS
+         then Some intent else None)
+      else None
+  end.
+
+Definition has_chunk (name : cname) (l : list chunk) : bool := existsb (fun c => cname_eqb (c_name c) name) l.
+
+Fixpoint chunk_position (name : cname) (l : list chunk) (i : nat) : option nat :=
+  match l with
+  | [] => None
+  | c :: t => if cname_eqb (c_name c) name then Some i else chunk_position name t (S i)
+  end.
+
+Definition remove_nth_chunk (n : nat) (l : list chunk) : list chunk := firstn n l ++ skipn (S n) l.
+
+(* pub fn preprocess_chunks(aux_chunks, opts) *)
+Definition preprocess_chunks (e : env) (aux : list chunk) (o : options) : list chunk * options :=
+  let has_srgb := has_chunk name_sRGB aux in
+  let allow_gray0 := negb has_srgb || negb (strip_is_none (strip o)) in
+  let '(aux1, allow_gray) :=
+    match chunk_position name_iCCP aux O with
+    | None => (aux, allow_gray0)
+    | Some idx =>
+        let may_replace := negb (strip_is_none (strip o)) && strip_keep (strip o) name_sRGB in
+        if may_replace && has_srgb then (remove_nth_chunk idx aux, true)
+        else
+          match nth_error aux idx with
+          | None => (aux, false)
+          | Some iccp =>
+              match extract_icc e iccp with
+              | None => (aux, false)
+              | Some icc =>
+                  let intent := if may_replace then srgb_rendering_intent icc else None in
+                  match intent with
+                  | Some i => (set_nth idx {| c_name := name_sRGB; c_data := [i] |} aux, true)
+                  | None =>
+                      if idat_recoding o then
+                        let cur_len := lenZ (c_data iccp) in
+                        match make_iccp e icc (deflate o) (Some (cur_len - 1)) with
+                        | Ok n => (set_nth idx n aux, false)
+                        | _ => (aux, false)
+                        end
+                      else (aux, false)
+                  end
+              end
+          end
+    end in
+  let o1 := if negb allow_gray && grayscale_reduction o
+            then set_reductions o (interlace o) (bit_depth_reduction o) (color_type_reduction o) (palette_reduction o) false
+            else o in
+  let o2 := if has_chunk name_acTL aux1
+            then set_reductions o1 None false false false false
+            else o1 in
+  (aux1, o2).
+
+(* pub fn postprocess_chunks(aux_chunks, ihdr, orig_ihdr) *)
+Definition postprocess_chunks (aux : list chunk) (hd orig : ihdr) : list chunk :=
+  let aux1 :=
+    if negb (depth orig =? depth hd) || negb (color_type_eqb (ctype orig) (ctype hd))
+    then List.filter (fun c => negb (cname_eqb (c_name c) name_bKGD || cname_eqb (c_name c) name_sBIT || cname_eqb (c_name c) name_hIST)) aux
+    else aux in
+  if negb (Bool.eqb (is_gray (ctype orig)) (is_gray (ctype hd)))
+  then List.filter (fun c => negb (cname_eqb (c_name c) name_sRGB || cname_eqb (c_name c) name_iCCP)) aux1
+  else aux1.
